@@ -193,6 +193,71 @@ func RuleILocks(c *core.Ctx) {
 				}
 			})
 		}
+		// no re-entry: sync.RWMutex is not reentrant — a function that holds the
+		// mutex (in either mode) and calls a function of the package that acquires
+		// it again blocks on itself for ever
+		acquires := map[*ssa.Function]bool{}
+		for _, fn := range p.SrcFuncs() {
+			if core.PkgPathOf(fn) != g.pkg {
+				continue
+			}
+			core.EachInstr(fn, func(ins ssa.Instruction) {
+				call, ok := ins.(ssa.CallInstruction)
+				if !ok {
+					return
+				}
+				callee := call.Common().StaticCallee()
+				if callee == nil || core.PkgPathOf(callee) != "sync" || len(call.Common().Args) == 0 {
+					return
+				}
+				if fa, ok := call.Common().Args[0].(*ssa.FieldAddr); ok && core.FieldOf(fa) == mutexF && (callee.Name() == "Lock" || callee.Name() == "RLock") {
+					acquires[fn] = true
+				}
+			})
+		}
+		// transitively, through functions of the package
+		for changed := true; changed; {
+			changed = false
+			for _, fn := range p.SrcFuncs() {
+				if core.PkgPathOf(fn) != g.pkg || acquires[fn] {
+					continue
+				}
+				core.EachInstr(fn, func(ins ssa.Instruction) {
+					if call, ok := ins.(ssa.CallInstruction); ok {
+						if callee := call.Common().StaticCallee(); callee != nil && acquires[callee] && !acquires[fn] {
+							acquires[fn] = true
+							changed = true
+						}
+					}
+				})
+			}
+		}
+		for _, fn := range p.SrcFuncs() {
+			if core.PkgPathOf(fn) != g.pkg {
+				continue
+			}
+			states := lockStates(p, fn, mutexF)
+			core.EachInstr(fn, func(ins ssa.Instruction) {
+				call, ok := ins.(ssa.CallInstruction)
+				if !ok {
+					return
+				}
+				if _, isDefer := ins.(*ssa.Defer); isDefer {
+					return
+				}
+				callee := call.Common().StaticCallee()
+				if callee == nil || !acquires[callee] {
+					return
+				}
+				st := states[ins]
+				if !st.r && !st.w {
+					return
+				}
+				n++
+				c.Ob(rule, fmt.Sprintf("%s:no call of %s while the mutex is held", core.FuncName(fn), callee.Name()), ins.Pos(), core.FuncName(fn), core.Violated,
+					"the function holds "+g.typ+"."+g.mutex+" here and calls "+core.FuncName(callee)+", which acquires it again: sync.RWMutex is not reentrant, the goroutine blocks on itself and the command never returns")
+			})
+		}
 		for helper, need := range needsLock {
 			node := p.CG.Nodes[helper]
 			if node == nil || len(node.In) == 0 {
